@@ -1274,8 +1274,11 @@ class Intersection(Operation):
            step: int = 0) -> List[Any]:
     id_count = {}
     for op in self._ops[1:]:
-      for dna in op(inputs, global_state=global_state, step=step):
-        dna_id = id(dna)
+      # NOTE: an item counts once per operation, however many times that
+      # operation outputs it.
+      output_ids = set(
+          id(dna) for dna in op(inputs, global_state=global_state, step=step))
+      for dna_id in output_ids:
         if dna_id not in id_count:
           id_count[dna_id] = 0
         id_count[dna_id] += 1
